@@ -334,7 +334,9 @@ def r5_wakeup_path(chk: Check):
     ck = tree.func("scheduler.dependencies", "Dependency.check")
     chk.require(any(tail(c) == "dependencychanged" for c in fn_calls(ck.node)), chk.fkey(ck, "check -> dependencychanged"), "Dependency.check must call the target's dependencychanged", chk.loc(ck.module, ck.node))
     dc = tree.func("scheduler.base", "Job.dependencychanged")
-    chk.require(any(src(c) == "self._readyEvent.set()" for c in fn_calls(dc.node)), chk.fkey(dc, "sets ready event"), "dependencychanged must be able to set the ready event", chk.loc(dc.module, dc.node))
+    from . import c07
+
+    c07.ready_on_satisfaction(chk)
     # token status is OK exactly when the request fits
     st = tree.func("tokens", "CounterTokenDependency.status")
     g2 = CFG(st.node)
